@@ -195,6 +195,40 @@ theorem exactPath_eq_spec (r s n m U : ℕ) (hs : 0 < s) (hrs : r ≤ s) (hm : 0
   · rw [le_div_iff₀ hDR]; exact_mod_cast h1
   · rw [div_lt_iff₀ hDR]; exact_mod_cast h2
 
+/-- **Soundness of the exact-root certificate** (any denominator m): it is the code's exact
+    rational fast path, and that path is the formula. -/
+theorem exactOK_sound (a b n m U r s T : ℕ) (h : exactOK a b n m U r s T = true) :
+    (T : ℤ) = Tspec U ((n : ℝ) / m) (1 - (a : ℝ) / b) := by
+  simp only [exactOK, Bool.and_eq_true, decide_eq_true_eq] at h
+  obtain ⟨⟨⟨⟨⟨hs, hrs⟩, hm⟩, ha⟩, hb⟩, hT⟩ := h
+  rw [hT, ← ha, ← hb]
+  exact exactPath_eq_spec r s n m U hs hrs hm
+
+/-- **The escalation decision is sound given an enclosure**: if the probability p = 1 − (1−f)^σ is
+    enclosed by pLo ≤ p ≤ pHi, p < 1, and the two integer thresholds computed from the ends (the upper
+    one capped at U − 1, as `thresholdFromBoundedProbability` does since fix cb1bc36) coincide, then
+    that common value is ⌊U·p⌋.  So a wrong result can only come from a wrong ENCLOSURE, never from the
+    decision to stop escalating. -/
+theorem interval_resolves (U : ℕ) (p pLo pHi : ℝ) (hU : 0 < U) (hp : p < 1) (h1 : pLo ≤ p) (h2 : p ≤ pHi)
+    (h : min ⌊(U : ℝ) * pLo⌋ ((U : ℤ) - 1) = min ⌊(U : ℝ) * pHi⌋ ((U : ℤ) - 1)) :
+    ⌊(U : ℝ) * p⌋ = min ⌊(U : ℝ) * pLo⌋ ((U : ℤ) - 1) := by
+  have hUR : (0:ℝ) < U := by exact_mod_cast hU
+  have a1 : ⌊(U : ℝ) * pLo⌋ ≤ ⌊(U : ℝ) * p⌋ := Int.floor_le_floor (by nlinarith)
+  have a2 : ⌊(U : ℝ) * p⌋ ≤ ⌊(U : ℝ) * pHi⌋ := Int.floor_le_floor (by nlinarith)
+  have a3 : ⌊(U : ℝ) * p⌋ ≤ (U : ℤ) - 1 := by
+    have : ⌊(U : ℝ) * p⌋ < (U : ℤ) := by
+      rw [Int.floor_lt]; push_cast; nlinarith
+    omega
+  have b1 : min ⌊(U : ℝ) * pLo⌋ ((U : ℤ) - 1) ≤ ⌊(U : ℝ) * p⌋ := le_trans (min_le_left _ _) a1
+  have b2 : ⌊(U : ℝ) * p⌋ ≤ min ⌊(U : ℝ) * pHi⌋ ((U : ℤ) - 1) := le_min a2 a3
+  omega
+
+/-- the same with the enclosure given on (1−f)^σ, as the pipeline has it: lo ≤ x ≤ hi, 0 < x -/
+theorem interval_resolves_pow (U : ℕ) (x lo hi : ℝ) (hU : 0 < U) (hx : 0 < x) (h1 : lo ≤ x) (h2 : x ≤ hi)
+    (h : min ⌊(U : ℝ) * (1 - hi)⌋ ((U : ℤ) - 1) = min ⌊(U : ℝ) * (1 - lo)⌋ ((U : ℤ) - 1)) :
+    ⌊(U : ℝ) * (1 - x)⌋ = min ⌊(U : ℝ) * (1 - hi)⌋ ((U : ℤ) - 1) :=
+  interval_resolves U (1 - x) (1 - hi) (1 - lo) hU (by linarith) (by linarith) (by linarith) h
+
 /-! ### the guard ladder of the code against the formula -/
 
 /-- the coefficient as a real number -/
@@ -388,6 +422,18 @@ theorem ratcert_output_correct (i : Input) (a b n m U T : ℕ) (c : GV.Model.Thr
   rw [e3] at this
   exact this
 
+/-- end to end for the exact-root certificate -/
+theorem exact_output_correct (i : Input) (a b n m U r s T : ℕ)
+    (hden : 0 < i.fDen) (hg : guards i = .general a b n m U)
+    (hc : exactOK a b n m U r s T = true) :
+    (T : ℤ) = Tspec U (sigmaR i) (fR i) := by
+  obtain ⟨_, _, _, e1, e2⟩ := guards_general_sound i a b n m U hden hg
+  have := exactOK_sound a b n m U r s T hc
+  rw [e2] at this
+  have e3 : (1:ℝ) - (a:ℝ) / b = fR i := by rw [e1]; ring
+  rw [e3] at this
+  exact this
+
 /-! ### eligibility -/
 
 /-- **a VRF leader value makes a pool eligible exactly when it is below the threshold** -/
@@ -456,6 +502,7 @@ theorem source_as_modelled :
   "return threshold, true"] := ⟨rfl, rfl, rfl, rfl, rfl⟩
 
 /-! non-vacuity -/
+example : exactOK 1 4 1 2 (2 ^ 256) 1 2 (2 ^ 255) = true := by decide
 example : certOK 1 4 1 2 (2 ^ 256) (2 ^ 255) = true := by decide   -- f = 3/4, σ = 1/2: exactly half
 example : certOK 19 20 1 1 1000 50 = true := by decide             -- σ = 1: ⌊1000·(1/20)⌋
 example : guards ⟨0, 1, 2, false, 3, 4⟩ = .general 1 4 1 2 (2 ^ 256) := by decide
